@@ -208,14 +208,21 @@ theorem exec_wEq (P : Prog) (s s' : State) (t : Nat) (i : Instr) (rest : List In
   case joinU k =>
     simp only [exec] at h
     split at h
-    · rename_i hg
-      obtain ⟨hs0, htk⟩ := hg
-      have hkn := hlt k (by rw [hs0]; simp)
-      have hmk := hut k (by simp)
-      simp only [Option.some.injEq] at h; subst h
-      refine wEq_upd2 P s _ t k _ _ hE ht hkn (Ne.symm htk) rfl ?_
-      simp [wwPlus, wwMinus, nameHeld, hc, hs0, hmk, wsum, aPlus, aMinus, htk, holds]
-    · simp at h
+    · simp only [Option.some.injEq] at h; subst h
+      refine wEq_upd1 P s _ t _ hE ht rfl ?_
+      simp [wwPlus, wwMinus, nameHeld, hc, wsum, aPlus, aMinus]
+    · split at h
+      · simp only [Option.some.injEq] at h; subst h
+        refine wEq_upd1 P s _ t _ hE ht rfl ?_
+        simp [wwPlus, wwMinus, nameHeld, hc, wsum, aPlus, aMinus]
+      · split at h
+        · rename_i htk _ hs0
+          have hkn := hlt k (by rw [hs0]; simp)
+          have hmk := hut k (by simp)
+          simp only [Option.some.injEq] at h; subst h
+          refine wEq_upd2 P s _ t k _ _ hE ht hkn (Ne.symm htk) rfl ?_
+          simp [wwPlus, wwMinus, nameHeld, hc, hs0, hmk, wsum, aPlus, aMinus, htk, holds]
+        · simp at h
   all_goals exec_split h
   all_goals (first
     | (refine wEq_upd1 P s _ t _ hE ht rfl ?_
